@@ -1621,10 +1621,13 @@ impl FrameHeader {
         sample_rate: usize,
         offset: FrameOffset,
     ) -> Result<Self, VerifyError> {
-        verify_block_size!("block_size", block_size)?;
+        verify_range!("block_size", block_size, 1..=(crate::constant::MAX_BLOCK_SIZE))?;
         let block_size_spec = BlockSizeSpec::from_size(block_size as u16);
-        let sample_size_spec =
-            SampleSizeSpec::from_bits(bits_per_sample as u8).ok_or_else(|| {
+        // narrow only after the range is known to fit (264 must not become 8).
+        let sample_size_spec = u8::try_from(bits_per_sample)
+            .ok()
+            .and_then(SampleSizeSpec::from_bits)
+            .ok_or_else(|| {
                 VerifyError::new("bits_per_sample", "must be one of a supported value.")
             })?;
         verify_true!(
@@ -1633,7 +1636,9 @@ impl FrameHeader {
             "32-bit encoding is not supported currently."
         )?;
         channel_assignment.verify()?;
-        let sample_rate_spec = SampleRateSpec::from_freq(sample_rate as u32)
+        let sample_rate_spec = u32::try_from(sample_rate)
+            .ok()
+            .and_then(SampleRateSpec::from_freq)
             .ok_or_else(|| VerifyError::new("sample_rate", "must be in a supported range."))?;
         let mut ret = Self::from_specs(
             block_size_spec,
